@@ -57,7 +57,7 @@ FAM = {
     "InverseGamma": (["concentration", "scale"], "pos"), "Exponential": (["rate"], "pos"), "LogNormal": (["loc", "scale"], "pos"),
     "Beta": (["concentration1", "concentration0"], "unit"), "Uniform": (["low", "high"], "bounded"), "Normal": (["loc", "scale"], "real"),
 }
-BIJ_FOR = {"pos": ["exp", "softplus", "softplus_c", "softplus_v", "default"], "unit": ["sigmoid01", "default"], "bounded": ["sigmoid_lh", "default"],
+BIJ_FOR = {"pos": ["exp", "softplus", "softplus_c", "softplus_v", "default"], "unit": ["sigmoid01", "default"], "bounded": ["sigmoid_lh", "default", "algsig"],
            "real": ["scale_c", "scale_v", "shift_scale"]}
 ENTRIES = ["instance", "class", "default", "auto", "gb_instance", "gb_class", "gb_default"]
 
@@ -96,6 +96,9 @@ def bij_maps(kind, args):
         lo, hi = args.get("lo", 0.0), args.get("hi", 1.0)
         return (lambda t: lo + (hi - lo) * sp.expit(t), lambda v: sp.logit((v - lo) / (hi - lo)),
                 lambda t: math.log(hi - lo) - np.logaddexp(0.0, -t) - np.logaddexp(0.0, t))
+    if kind == "algsig":
+        # liesel's own AlgebraicSigmoid: b(t) = t / sqrt(1 + t^2) onto (-1, 1)
+        return (lambda t: t / np.sqrt(1 + t * t), lambda v: v / np.sqrt(1 - v * v), lambda t: -1.5 * np.log1p(t * t))
     if kind in ("scale_c", "scale_v"):
         s = args["s"]
         return (lambda t: s * t, lambda v: v / s, lambda t: np.full(np.shape(t), math.log(abs(s))))
@@ -139,10 +142,13 @@ def gen():
             else:
                 params[sl] = float(draw(st.sampled_from([0.5, 1.0, 1.5, 2.5])))
         var_params = [sl for sl in params if draw(st.integers(0, 2)) == 0]       # these are given as other (strong) variables
+        if kind == "algsig":
+            params, var_params = {"low": -1.0, "high": 1.0}, []
+            entry = draw(st.sampled_from(["instance", "gb_instance"]))
         return {"fam": fam, "kind": kind, "entry": entry, "params": params, "var_params": var_params,
                 "c": draw(st.sampled_from([0.5, 1.0, 2.0])), "s": draw(st.sampled_from([0.5, 2.0, -1.5])), "a": draw(st.sampled_from([0.0, 1.0, -2.0])),
                 "vector": draw(st.booleans()), "role": draw(st.sampled_from(["param", "param", "obs", "plain"])), "per_obs": draw(st.booleans()),
-                "indirect": draw(st.booleans()), "copy": draw(st.sampled_from(["none", "none", "build_copy", "deepcopy"])),
+                "indirect": draw(st.booleans()), "int_init": draw(st.integers(0, 3)) == 0, "copy": draw(st.sampled_from(["none", "none", "build_copy", "deepcopy"])),
                 "z": [draw(f32(-2, 2)) for _ in range(3)], "ts": [[draw(f32(-4, 4)) for _ in range(3)] for _ in range(3)],
                 "new_params": [draw(st.sampled_from([0.75, 1.25, 2.0])) for _ in range(3)]}
 
@@ -179,6 +185,10 @@ def build(c, transformed=True):
     z = c["z"] if c["vector"] else c["z"][:1]
     v0 = to_support(z, support, lo, hi)
     v0 = np.asarray(v0 if c["vector"] else v0.reshape(()), dtype=dt)
+    if c.get("int_init") and not x64() and c["kind"] in ("exp", "scale_c", "scale_v", "shift_scale") and support in ("pos", "real"):    # (TFP maps integers to float32 even under x64)
+        # an integer-typed initial value inside the support (Python int / int array); bijectors whose TFP inverse rejects integers are left out
+        vi = np.maximum(np.rint(np.asarray(v0, dtype=np.float64)), 1 if support == "pos" else -50).astype(np.int32)
+        v0 = vi if c["vector"] else int(vi.reshape(()))
     mk = {"param": lsl.param, "obs": lsl.obs, "plain": lsl.Var}[c["role"]]
     x = mk(v0, dist, name="x")
     extra = {}
@@ -210,6 +220,10 @@ def build(c, transformed=True):
             return tfb.Softplus(hinge_softness=dt(c["c"]))
         if kind in ("sigmoid01", "sigmoid_lh"):
             return tfb.Sigmoid(low=dt(args["lo"]), high=dt(args["hi"]))
+        if kind == "algsig":
+            from liesel.bijectors import AlgebraicSigmoid
+
+            return AlgebraicSigmoid()
         if kind == "scale_c":
             return tfb.Scale(dt(c["s"]))
         if kind == "shift_scale":
